@@ -41,6 +41,7 @@ def run(ctx):
     ctx.attempt(integer_coordinates_rule, ctx, lib)
     ctx.attempt(embedding_dimension_rule, ctx)
     ctx.attempt(weighted_jacobian_rule, ctx)
+    ctx.attempt(mass_center_rule, ctx)
 
     r1 = ctx.rule("R7.1", "every tabulated rule: points inside the reference element, weights sum to the reference measure", min_instances=16)
     r2 = ctx.rule("R7.2", "exactness degree of every tabulated rule >= the documented order", min_instances=16)
@@ -422,3 +423,52 @@ def weighted_jacobian_rule(ctx, rid="R7.11"):
         r.fail(f.qualname, "weighted-jacobian", f.file, f.lineno, "_GroupElem.Get_weightedJacobian_e_pg", f"{bad}: the sign of a negative quadrature weight is lost (or the orientation of a mirrored element enters the measure): integrals with the 5-point tetrahedron / 8-point prism rules, or on reflected meshes, are wrong")
     else:
         r.ok("wJ == |J| * w for both orientations, negative weight kept")
+
+
+def mass_center_rule(ctx, rid="R7.12"):
+    """'... centroids ... are exact': the centre of mass a simulation reports is, component by component,
+    sum_{e,p} rho wJ x_k (x thickness in 2-D) / mass.  _Simu.center is interpreted on one element group with symbolic
+    integration points, weights and a per-point density (2 elements x 2 points, dim 2 and 3): three DIFFERENT components,
+    each the weighted mean of its own coordinate."""
+    from types import SimpleNamespace
+
+    from ..xeval import Interp, XObj, XRaise
+    from ..femchain import XFe, fe_hook_full
+    from ..alg import Rat
+
+    repo = ctx.repo
+    simu = repo.cls("EasyFEA.Simulations._simu._Simu")
+    f = repo.lookup_method(simu, "center")
+    r = ctx.rule(rid, "_Simu.center[k] == sum_{e,p} rho wJ x_k (* thickness in 2-D) / mass for a per-point density, k = x, y, z", min_instances=2)
+    for dim in (2, 3):
+        r.instance(fn=f.qualname)
+        Ne, nP = 2, 2
+        X = XFe((Ne, nP, 3), [Poly.var(f"x{e}{p}{k}") for e in range(Ne) for p in range(nP) for k in range(3)])
+        W = XFe((Ne, nP), [Poly.var(f"w{e}{p}") for e in range(Ne) for p in range(nP)])
+        rho = XArray((Ne, nP), [Poly.var(f"r{e}{p}") for e in range(Ne) for p in range(nP)])
+        mass, t = Poly.var("M"), Poly.var("t")
+        group = SimpleNamespace(Get_GaussCoordinates_e_pg=lambda mt=None: X, Get_weightedJacobian_e_pg=lambda mt=None: W)
+        obj = XObj(simu, {"dim": dim, "mass": mass, "rho": rho, "mesh": SimpleNamespace(Get_list_groupElem=lambda d=None: [group], center=None), "model": SimpleNamespace(thickness=t)})
+        I = Interp(repo, extra_builtins={"isinstance": lambda o, ty: True if isinstance(o, XArray) else isinstance(o, ty) if isinstance(ty, type) else False})
+        I.call_hook = fe_hook_full
+        try:
+            out = XArray.from_nested(I.call_function(f, [], self_obj=obj))
+        except XRaise as e:
+            r.fail(f.qualname, f"mass-center:dim{dim}", f.file, f.lineno, "_Simu.center", f"dim {dim}: raises {e}")
+            continue
+        bad = None
+        if out.shape != (3,):
+            bad = f"shape {out.shape}"
+        else:
+            for k in range(3):
+                want = Rat.of(Poly())
+                for e in range(Ne):
+                    for p in range(nP):
+                        want = want + Rat.of(rho[e, p] * W[e, p] * X[e, p, k] * (t if dim == 2 else 1)) / Rat.of(mass)
+                got = out[k]
+                if bad is None and not is_zero((got if isinstance(got, Rat) else Rat.of(got)) - want):
+                    bad = f"component {'xyz'[k]} is {got!r}, expected sum rho wJ {'xyz'[k]}{' t' if dim == 2 else ''} / M"
+        if bad:
+            r.fail(f.qualname, f"mass-center:dim{dim}", f.file, f.lineno, "_Simu.center", f"dim {dim}, per-point density: {bad}: the components of the centre of mass are not the weighted means of their own coordinates (one scalar summed over all axes gives three equal numbers)")
+        else:
+            r.ok(f"dim {dim}: centre of mass == weighted mean of each coordinate")
